@@ -454,8 +454,13 @@ def make_queries_sr(rng, spec, sr):
 
 def inplace_update(w):
     t = w.physical if hasattr(w, "physical") else w
-    if str(t.dtype) == "torch.bool": t.logical_not_()
-    else: t.mul_(0.5)
+    try:
+        if str(t.dtype) == "torch.bool": t.logical_not_()
+        else: t.mul_(0.5)
+    except RuntimeError:
+        # an expanded (stride-0) weight tensor: torch refuses the in-place update of overlapping memory;
+        # the caller cannot update such a tensor in place, so this history step is a no-op
+        pass
 
 def history(rng, spec, g, rg, seq, stream, vals, metas, rtvals, rtmetas, hist):
     """one history of calls on the SAME grammar object, with in-place weight updates by the caller in between"""
